@@ -84,6 +84,18 @@ def snapshot_diff(a, b, path="") -> List[str]:
     return out
 
 
+def value_changes(diffs: List[str], rep=None, where: str = "") -> List[str]:
+    """Only differences a caller can observe through the values count as a modification. A field that was re-assigned to an
+    equal value (e.g. BinPack.reset filling `action_mask` of the one State object a CSVGenerator hands out on every call) is
+    recorded as an observation: demanding object identity would be stricter than "never modifies the arguments"."""
+    real = [d for d in diffs if not d.endswith("field object replaced")]
+    if rep is not None and len(real) < len(diffs):
+        rep.count("value_preserving_field_replacements", len(diffs) - len(real))
+        if not real:
+            rep.notes.append(f"{where}: fields re-assigned to equal values (no observable change): {[d.split(':')[0] for d in diffs][:4]}"[:300])
+    return real
+
+
 def env_digest(obj, depth=0, seen=None) -> str:
     """Digest of the Python-side state of an environment object (viewer excluded)."""
     h = hashlib.sha1()
@@ -412,7 +424,7 @@ def run_shard(shard: Dict[str, Any], rep: Report) -> None:
             es_b, et_b = env.reset(jax.random.PRNGKey((kint + 12345) % (2**31 - 1)))
             rep.evaluated(1)
             rep.count("earlier_result_snapshots")
-            diffs = snapshot_diff(snap_first, snapshot((es, et)))
+            diffs = value_changes(snapshot_diff(snap_first, snapshot((es, et))), rep, f"{name}/{cid} reset;reset")
             if diffs:
                 viol("earlier_result_mutated_by_later_call", {"call": "reset(k1); reset(k2)", "changes": diffs[:6]})
             es_c, et_c = env.reset(key)
@@ -441,7 +453,7 @@ def run_shard(shard: Dict[str, Any], rep: Report) -> None:
                 rep.evaluated(2)
                 rep.count("eager_pairs")
                 rep.count("argument_snapshots")
-                diffs = snapshot_diff(snap, after)
+                diffs = value_changes(snapshot_diff(snap, after), rep, f"{name}/{cid} eager step")
                 if diffs or not np.array_equal(np.asarray(aj), ab):
                     viol("argument_mutated", {"call": f"eager step {i}", "changes": diffs[:6]}, qualifier=";".join(sorted({d.split(":")[0] for d in diffs}))[:80])
                 js, jt = runner.step(cur, a)
@@ -466,7 +478,7 @@ def run_shard(shard: Dict[str, Any], rep: Report) -> None:
                     continue
                 rep.evaluated(2)
                 rep.count("numpy_state_snapshots")
-                diffs = snapshot_diff(snap, snapshot(np_state))
+                diffs = value_changes(snapshot_diff(snap, snapshot(np_state)), rep, f"{name}/{cid} NumPy-leaf state")
                 if diffs:
                     viol("argument_mutated", {"call": tag + " (NumPy-leaf state)", "changes": diffs[:6]}, qualifier="numpy_state;" + ";".join(sorted({d.split(":")[0] for d in diffs}))[:60])
                 js, jt = runner.step(s0, a)
@@ -491,7 +503,7 @@ def run_shard(shard: Dict[str, Any], rep: Report) -> None:
                 except Exception as e:
                     viol("eager_step_raises", {"error": repr(e)[:300], "call": tag})
                     continue
-                diffs = snapshot_diff(snap, snapshot(s0))
+                diffs = value_changes(snapshot_diff(snap, snapshot(s0)), rep, f"{name}/{cid} eager step on collected state")
                 rep.evaluated(2)
                 rep.count("eager_pairs")
                 rep.count("argument_snapshots")
